@@ -66,7 +66,8 @@ def stub_association(max_pdu_length):
     a = ap.Association.__new__(ap.Association)
     a.max_pdu_length = max_pdu_length
     a.dul = StubDul(2 * max_pdu_length + 11 if max_pdu_length else 0)     # as after negotiating down to the peer's limit
-    a.ae = types.SimpleNamespace(timeout=1)
+    # the entity's configured limit is yet another number: only the negotiated one may govern what is sent
+    a.ae = types.SimpleNamespace(timeout=1, max_pdu_length=3 * max_pdu_length + 5 if max_pdu_length else 0, local_ae={'aet': 'LOCALAET'})
     a.accepted_contexts = {}
     a.association_established = True
     return a
